@@ -5,9 +5,16 @@ package main
 // over a stub ambient index with the contract of ambientindex.go AddressInformation /
 // AdditionalPodSubscriptions (node-local part).  Model: lean/IstioModel/C03/Wds.lean.
 //
-//	widx  name:alias:onNode:ver,...      replace the index (sorted by name)
-//	wreq  <sub> <unsub> <init name@ver,..> <cur|stale|empty>   delta request for the Address type
+//	widx  name:alias:onNode:ver[:flags],...   replace the index (sorted by name); flags: x = the alias is listed by
+//	                                     Aliases() but not indexed (host-network pod), s = a Service address
+//	wreq  <sub> <unsub> <held|heldx|-> <cur|stale|empty>   delta request for the Address type
 //	wpush <updated names>                push for updated addresses
+//	wlreq                                the same request for the Workload type (same generator; appendAddress sends
+//	                                     workloads only); wpush pushes every watched type
+//	wpol  name@ver,...                   replace the authorization policies (stub AmbientIndexes.Policies)
+//	wareq <sub> <unsub> <held|-> <cur|stale|empty>   delta request for the Authorization type (REAL WorkloadRBACGenerator)
+//	wapush <updated policy names> <forced 0|1>       pushDeltaXds for the Authorization type
+//	wfail 0|1                            the stream's Send fails
 //	wreconnect                           fresh stream; the client keeps what it holds
 
 import (
@@ -25,6 +32,7 @@ import (
 	"istio.io/istio/pkg/config/schema/kind"
 	"istio.io/istio/pkg/util/sets"
 	"istio.io/istio/pkg/workloadapi"
+	"istio.io/istio/pkg/workloadapi/security"
 	"verifharness/internal/wire"
 )
 
@@ -32,16 +40,27 @@ type wl struct {
 	name, alias string
 	onNode      bool
 	ver         int
+	noIdx       bool // the alias is not indexed: a lookup by it finds nothing (host-network pods)
+	svc         bool // a Service address; name = namespace/hostname
 }
 
 type stubIndex struct {
 	model.NoopAmbientIndexes
-	wls []wl // sorted by name
+	wls  []wl  // sorted by name
+	pols []res // authorization policies, name = namespace/name
 }
 
 func mkAddr(w wl) model.AddressInfo {
 	p := strings.SplitN(w.alias, "/", 2)
 	ip := netip.MustParseAddr(p[1])
+	if w.svc {
+		q := strings.SplitN(w.name, "/", 2)
+		return model.NewAddressInfo(&workloadapi.Address{Type: &workloadapi.Address_Service{Service: &workloadapi.Service{
+			Name: q[1], Namespace: q[0], Hostname: q[1],
+			Addresses:       []*workloadapi.NetworkAddress{{Network: p[0], Address: ip.AsSlice()}},
+			SubjectAltNames: []string{"content-v" + strconv.Itoa(w.ver)},
+		}}})
+	}
 	node := "other"
 	if w.onNode {
 		node = "n1"
@@ -55,9 +74,26 @@ func mkAddr(w wl) model.AddressInfo {
 func (s *stubIndex) lookup(k string) []wl {
 	var out []wl
 	for _, w := range s.wls {
-		if w.name == k || w.alias == k {
+		if w.name == k || (!w.noIdx && w.alias == k) {
 			out = append(out, w)
 		}
+	}
+	return out
+}
+
+// Policies has the contract of ambient/authorization.go: nothing requested = every policy,
+// otherwise the requested keys that exist.
+func (s *stubIndex) Policies(requested sets.Set[model.ConfigKey]) []model.WorkloadAuthorization {
+	var out []model.WorkloadAuthorization
+	for _, p := range s.pols {
+		q := strings.SplitN(p.name, "/", 2)
+		if len(requested) > 0 && !requested.Contains(model.ConfigKey{Kind: kind.AuthorizationPolicy, Name: q[1], Namespace: q[0]}) {
+			continue
+		}
+		// the content version is the number of (empty) rule groups
+		out = append(out, model.WorkloadAuthorization{Authorization: &security.Authorization{
+			Name: q[1], Namespace: q[0], Groups: make([]*security.Group, p.ver),
+		}})
 	}
 	return out
 }
@@ -94,7 +130,7 @@ func (s *stubIndex) AdditionalPodSubscriptions(proxy *model.Proxy, _ sets.String
 		return out
 	}
 	for _, w := range s.wls {
-		if w.onNode && !currentSubs.Contains(w.name) {
+		if w.onNode && !w.svc && !currentSubs.Contains(w.name) {
 			out.Insert(w.name)
 		}
 	}
@@ -108,23 +144,28 @@ type wdsSys struct {
 	ds    *deltaStream
 	con   *pxds.Connection
 	push  *model.PushContext
-	// delta client
-	held     map[string]int
-	heldVer  map[string]string // real version strings, echoed in initial_resource_versions
-	verOf    map[string]int    // real version string -> logical version
-	subNames sets.String       // names the client is subscribed to (on-demand); nil = wildcard
-	wildcard bool
+	// delta client: what it holds per type (WDS = Address, WL = Workload, WAUTH = Authorization)
+	held    map[string]map[string]int
+	heldVer map[string]map[string]string // real version strings, echoed in initial_resource_versions
+	verOf   map[string]int               // real version string -> logical version
+	last    []*discovery.DeltaDiscoveryResponse
 }
 
 func newWds() *wdsSys {
-	w := &wdsSys{idx: &stubIndex{}, held: map[string]int{}, heldVer: map[string]string{}, verOf: map[string]int{}, subNames: sets.New[string]()}
+	w := &wdsSys{idx: &stubIndex{}, held: map[string]map[string]int{}, heldVer: map[string]map[string]string{}, verOf: map[string]int{}}
+	for _, t := range []string{"WDS", "WL", "WAUTH"} {
+		w.held[t], w.heldVer[t] = map[string]int{}, map[string]string{}
+	}
 	w.push = model.NewPushContext()
 	w.push.PushVersion = "v1/"
 	gens := map[string]model.XdsResourceGenerator{}
 	w.srv = pxds.VerifC03NewServer(gens)
 	w.srv.Env = &model.Environment{}
 	w.srv.Env.AmbientIndexes = w.idx
+	// as pilot/pkg/bootstrap/discovery.go registers them
 	gens[v3.AddressType] = pxds.WorkloadGenerator{Server: w.srv}
+	gens[v3.WorkloadType] = pxds.WorkloadGenerator{Server: w.srv}
+	gens[v3.WorkloadAuthorizationType] = pxds.WorkloadRBACGenerator{Server: w.srv}
 	w.connect()
 	return w
 }
@@ -139,23 +180,33 @@ func (w *wdsSys) connect() {
 // captured responses carry real version strings; translate and apply to the client
 func (w *wdsSys) drain() string {
 	var parts []string
+	w.last = w.ds.raw
 	for _, r := range w.ds.raw {
+		t := shortOf[r.TypeUrl]
 		var rs []res
 		for _, rr := range r.Resources {
 			lv, ok := w.verOf[rr.Version]
+			if t == "WAUTH" {
+				// no version on the wire: the content is the version
+				a := &security.Authorization{}
+				lv, ok = -1, rr.Resource.UnmarshalTo(a) == nil
+				if ok {
+					lv = len(a.Groups)
+				}
+			}
 			if !ok {
 				lv = -1
 			}
 			rs = append(rs, res{rr.Name, lv})
-			w.held[rr.Name] = lv
-			w.heldVer[rr.Name] = rr.Version
+			w.held[t][rr.Name] = lv
+			w.heldVer[t][rr.Name] = rr.Version
 		}
 		sort.Slice(rs, func(i, j int) bool { return rs[i].name < rs[j].name })
 		for _, n := range r.RemovedResources {
-			delete(w.held, n)
-			delete(w.heldVer, n)
+			delete(w.held[t], n)
+			delete(w.heldVer[t], n)
 		}
-		parts = append(parts, fmt.Sprintf("WDS:res=%s;rem=%s", encRes(rs), wire.EncSet(r.RemovedResources)))
+		parts = append(parts, fmt.Sprintf("%s:res=%s;rem=%s", t, encRes(rs), wire.EncSet(r.RemovedResources)))
 	}
 	w.ds.raw = nil
 	w.ds.got = nil
@@ -181,23 +232,34 @@ func (w *wdsSys) apply(f []string) (out string) {
 			for _, e := range strings.Split(f[1], ",") {
 				p := strings.Split(e, ":")
 				v, _ := strconv.Atoi(p[3])
-				x := wl{wire.Dec(p[0]), wire.Dec(p[1]), p[2] == "1", v}
+				x := wl{name: wire.Dec(p[0]), alias: wire.Dec(p[1]), onNode: p[2] == "1", ver: v}
+				if len(p) > 4 {
+					x.noIdx, x.svc = strings.Contains(p[4], "x"), strings.Contains(p[4], "s")
+				}
 				w.idx.wls = append(w.idx.wls, x)
 				w.verOf[mkAddr(x).Version] = v
 			}
 		}
 		return "ok"
-	case "wreq":
+	case "wpol":
+		w.idx.pols = decRes(f[1])
+		sort.Slice(w.idx.pols, func(i, j int) bool { return w.idx.pols[i].name < w.idx.pols[j].name })
+		return "ok"
+	case "wfail":
+		w.ds.fail = f[1] == "1"
+		return "ok"
+	case "wreq", "wlreq", "wareq":
+		t := map[string]string{"wreq": "WDS", "wlreq": "WL", "wareq": "WAUTH"}[f[0]]
 		sub, unsub := wire.DecList(f[1]), wire.DecList(f[2])
 		req := &discovery.DeltaDiscoveryRequest{
-			TypeUrl: v3.AddressType, ResourceNamesSubscribe: sub, ResourceNamesUnsubscribe: unsub,
-			ResponseNonce: resolveNonce(w.proxy, "WDS", f[4]),
+			TypeUrl: typeURL[t], ResourceNamesSubscribe: sub, ResourceNamesUnsubscribe: unsub,
+			ResponseNonce: resolveNonce(w.proxy, t, f[4]),
 		}
 		if f[3] == "held" || f[3] == "heldx" {
 			// a conformant (re)connecting client reports everything it holds, with the versions it was given
 			// (heldx: with versions the server never produced, e.g. those of another build of the control plane)
 			req.InitialResourceVersions = map[string]string{}
-			for n, vs := range w.heldVer {
+			for n, vs := range w.heldVer[t] {
 				if f[3] == "heldx" {
 					vs = "x-" + vs
 				}
@@ -207,6 +269,7 @@ func (w *wdsSys) apply(f []string) (out string) {
 		_ = pxds.VerifC03ProcessDeltaRequest(w.srv, req, w.con)
 		return w.drain() + " | " + showState(w.proxy)
 	case "wpush":
+		// the whole pushConnectionDelta: every watched type in push order (Address, Workload, Authorization)
 		pr := &model.PushRequest{
 			Push:             w.push,
 			ConfigsUpdated:   sets.New(model.ConfigKey{Kind: kind.Endpoints, Name: "x", Namespace: "y"}),
@@ -214,6 +277,15 @@ func (w *wdsSys) apply(f []string) (out string) {
 			Reason:           model.NewReasonStats(model.AmbientUpdate),
 		}
 		_ = pxds.VerifC03PushConnectionDelta(w.srv, w.con, pr)
+		return w.drain() + " | " + showState(w.proxy)
+	case "wapush":
+		keys := sets.New[model.ConfigKey]()
+		for _, n := range wire.DecList(f[1]) {
+			q := strings.SplitN(n, "/", 2)
+			keys.Insert(model.ConfigKey{Kind: kind.AuthorizationPolicy, Name: q[1], Namespace: q[0]})
+		}
+		pr := &model.PushRequest{Push: w.push, ConfigsUpdated: keys, Forced: f[2] == "1", Reason: model.NewReasonStats(model.ConfigUpdate)}
+		_ = pxds.VerifC03PushDeltaXds(w.srv, w.con, typeURL["WAUTH"], pr)
 		return w.drain() + " | " + showState(w.proxy)
 	case "wreconnect":
 		w.connect()
@@ -224,6 +296,10 @@ func (w *wdsSys) apply(f []string) (out string) {
 
 var wdsNames = []string{"w1", "w2", "w3", "w4"}
 var wdsAlias = map[string]string{"w1": "net/10.0.0.1", "w2": "net/10.0.0.2", "w3": "net/10.0.0.3", "w4": "net/10.0.0.4"}
+
+const wdsSvc = "ns/s1.svc" // the Service address of the universe (resource name = namespace/hostname)
+
+var wauthNames = []string{"ns/p1", "ns/p2", "ns2/p3"}
 
 func encIdx(m map[string]wl) string {
 	if len(m) == 0 {
@@ -238,12 +314,36 @@ func encIdx(m map[string]wl) string {
 	for i, n := range names {
 		w := m[n]
 		parts[i] = fmt.Sprintf("%s:%s:%s:%d", wire.Enc(w.name), wire.Enc(w.alias), wire.B(w.onNode), w.ver)
+		flags := ""
+		if w.noIdx {
+			flags += "x"
+		}
+		if w.svc {
+			flags += "s"
+		}
+		if flags != "" {
+			parts[i] += ":" + flags
+		}
 	}
 	return strings.Join(parts, ",")
 }
 
-// genWds: each case is a ztunnel-like client, wildcard or on-demand, following index changes with
-// pushes that name the changed addresses, subscription changes and reconnects.
+func encPols(m map[string]int) string {
+	var l []res
+	for _, n := range sortedNames(m) {
+		l = append(l, res{n, m[n]})
+	}
+	return encRes(l)
+}
+
+// genWds: each case is one ztunnel-like client on one type.
+//
+//	Address (1/2) / Workload (1/6): wildcard or on-demand, following index changes with pushes that name
+//	  the changed addresses, subscription changes (by resource name or by address), reconnects presenting
+//	  what it holds, failed sends. The index has workloads whose address is not indexed (host network),
+//	  workloads sharing one address, and a Service address.
+//	Authorization (1/3): a wildcard client following policy changes with pushes that name the changed
+//	  policies, forced pushes, reconnects after policies were deleted while it was away, failed sends.
 func genWds(seed uint64, n int, outp string) {
 	out := wire.Create(outp)
 	defer out.Close()
@@ -251,90 +351,221 @@ func genWds(seed uint64, n int, outp string) {
 	for c := 0; c < n; c++ {
 		r := root.Fork()
 		out.Line("case", strconv.Itoa(c), "wds")
-		idx := map[string]wl{}
-		wild := r.Chance(1, 2)
-		onNode := map[string]bool{"w4": r.Chance(1, 2)}
-		mutate := func() []string {
-			var changed []string
-			for _, nm := range wire.Subset(r, wdsNames, 1, 2) {
-				if _, ok := idx[nm]; ok && r.Chance(1, 3) {
-					delete(idx, nm)
-				} else {
-					idx[nm] = wl{nm, wdsAlias[nm], onNode[nm], 1 + r.Intn(3)}
-				}
-				changed = append(changed, nm)
-			}
-			return changed
-		}
-		mutate()
-		out.Line("widx", encIdx(idx))
-		subs := []string{}
-		first := func() {
-			// what a reconnecting client presents: the versions it holds (1/6: versions this server never
-			// produced), and in a third of the cases the nonce it retained from the dead stream
-			init, nk := "held", "empty"
-			if r.Chance(1, 6) {
-				init = "heldx"
-			}
-			if r.Chance(1, 3) {
-				nk = "stale"
-			}
-			if wild {
-				if r.Chance(1, 2) {
-					// the legacy wildcard: no resource_names_subscribe at all
-					out.Line("wreq", "-", "-", init, nk)
-				} else {
-					out.Line("wreq", "*", "-", init, nk)
-				}
-			} else {
-				subs = wire.Subset(r, wdsNames, 1, 2)
-				if len(subs) == 0 {
-					subs = []string{"w1"}
-				}
-				s2 := append([]string(nil), subs...)
-				if r.Chance(1, 4) {
-					s2[0] = wdsAlias[s2[0]] // subscribe by address
-				}
-				// on-demand clients subscribe and unsubscribe "*" at once
-				out.Line("wreq", wire.EncList(append([]string{"*"}, s2...)), "*", init, nk)
-			}
-		}
-		first()
-		length := 2 + r.Intn(14)
-		for i := 0; i < length; i++ {
-			switch r.Intn(8) {
-			case 0, 1, 2, 3:
-				ch := mutate()
-				out.Line("widx", encIdx(idx))
-				if r.Chance(9, 10) {
-					out.Line("wpush", wire.EncList(ch))
-				}
-			case 4:
-				if !wild {
-					add := wire.Subset(r, wdsNames, 1, 3)
-					rem := wire.Subset(r, wdsNames, 1, 5)
-					if len(add)+len(rem) > 0 {
-						out.Line("wreq", wire.EncList(add), wire.EncList(rem), "-", "empty")
-					}
-				} else {
-					out.Line("wreq", "-", "-", "-", "cur") // ACK
-				}
-			case 5:
-				out.Line("wreconnect")
-				first()
-			case 6:
-				out.Line("wpush", wire.EncList(wire.Subset(r, wdsNames, 1, 2)))
-			default:
-				out.Line("wreq", "-", "-", "-", "cur")
-			}
+		switch k := r.Intn(6); {
+		case k < 3:
+			genWdsAddr(r, out, "wreq")
+		case k < 4:
+			genWdsAddr(r, out, "wlreq")
+		default:
+			genWdsAuth(r, out)
 		}
 	}
 }
 
-// oracleWds: the property on the real generator. A wildcard client that was told about every
-// change (each index change is followed by a push naming it) holds exactly the index; an on-demand
-// client holds, for every resource name it is subscribed to, the current version iff it exists -
-// also after the resource was removed and re-created, and after a reconnect presenting versions.
+func genWdsAddr(r *wire.Rng, out *wire.Out, reqOp string) {
+	idx := map[string]wl{}
+	wild := r.Chance(1, 2)
+	universe := append([]string(nil), wdsNames...)
+	if r.Chance(1, 2) {
+		universe = append(universe, wdsSvc)
+	}
+	// attributes of a name are fixed within a case
+	attr := map[string]wl{}
+	for _, nm := range wdsNames {
+		attr[nm] = wl{name: nm, alias: wdsAlias[nm], noIdx: r.Chance(1, 4)}
+	}
+	w4 := attr["w4"]
+	w4.onNode = r.Chance(1, 2)
+	if r.Chance(1, 4) {
+		w4.alias = wdsAlias["w3"] // two workloads behind one address
+	}
+	attr["w4"] = w4
+	attr[wdsSvc] = wl{name: wdsSvc, alias: "net/10.0.1.1", svc: true}
+	var keys []string // everything a client can subscribe to: resource names and addresses
+	for _, nm := range universe {
+		keys = append(keys, nm, attr[nm].alias)
+	}
+	mutate := func() []string {
+		var changed []string
+		for _, nm := range wire.Subset(r, universe, 1, 2) {
+			if _, ok := idx[nm]; ok && r.Chance(1, 3) {
+				delete(idx, nm)
+			} else {
+				x := attr[nm]
+				x.ver = 1 + r.Intn(3)
+				idx[nm] = x
+			}
+			changed = append(changed, nm)
+		}
+		return changed
+	}
+	mutate()
+	out.Line("widx", encIdx(idx))
+	first := func() {
+		// what a reconnecting client presents: the versions it holds (1/6: versions this server never
+		// produced), and in a third of the cases the nonce it retained from the dead stream
+		init, nk := "held", "empty"
+		if r.Chance(1, 6) {
+			init = "heldx"
+		}
+		if r.Chance(1, 3) {
+			nk = "stale"
+		}
+		if wild {
+			if r.Chance(1, 2) {
+				// the legacy wildcard: no resource_names_subscribe at all
+				out.Line(reqOp, "-", "-", init, nk)
+			} else {
+				out.Line(reqOp, "*", "-", init, nk)
+			}
+		} else {
+			subs := wire.Subset(r, universe, 1, 2)
+			if len(subs) == 0 {
+				subs = []string{"w1"}
+			}
+			s2 := append([]string(nil), subs...)
+			switch r.Intn(6) {
+			case 0:
+				s2[0] = attr[s2[0]].alias // subscribe by address
+			case 1:
+				s2 = append(s2, attr[s2[0]].alias) // by resource name AND by its address
+			}
+			// on-demand clients subscribe and unsubscribe "*" at once
+			out.Line(reqOp, wire.EncList(append([]string{"*"}, s2...)), "*", init, nk)
+		}
+	}
+	first()
+	length := 2 + r.Intn(14)
+	for i := 0; i < length; i++ {
+		switch r.Intn(9) {
+		case 0, 1, 2, 3:
+			ch := mutate()
+			out.Line("widx", encIdx(idx))
+			if r.Chance(9, 10) {
+				out.Line("wpush", wire.EncList(ch))
+			}
+		case 4:
+			if !wild {
+				add := wire.Subset(r, keys, 1, 4)
+				rem := wire.Subset(r, keys, 1, 8)
+				if len(add)+len(rem) > 0 {
+					out.Line(reqOp, wire.EncList(add), wire.EncList(rem), "-", "empty")
+				}
+			} else {
+				out.Line(reqOp, "-", "-", "-", "cur") // ACK
+			}
+		case 5:
+			out.Line("wreconnect")
+			first()
+		case 6:
+			out.Line("wpush", wire.EncList(wire.Subset(r, universe, 1, 2)))
+		case 7:
+			if r.Chance(1, 2) {
+				// a push whose send fails: the stream dies, the client reconnects
+				ch := mutate()
+				out.Line("widx", encIdx(idx))
+				out.Line("wfail", "1")
+				out.Line("wpush", wire.EncList(ch))
+				out.Line("wfail", "0")
+				out.Line("wreconnect")
+				first()
+			} else {
+				out.Line(reqOp, "-", "-", "-", "cur")
+			}
+		default:
+			out.Line(reqOp, "-", "-", "-", "cur")
+		}
+	}
+}
+
+func genWdsAuth(r *wire.Rng, out *wire.Out) {
+	pols := map[string]int{}
+	mutate := func() []string {
+		var changed []string
+		for _, nm := range wire.Subset(r, wauthNames, 1, 2) {
+			if _, ok := pols[nm]; ok && r.Chance(1, 2) {
+				delete(pols, nm)
+			} else {
+				pols[nm] = 1 + r.Intn(3)
+			}
+			changed = append(changed, nm)
+		}
+		return changed
+	}
+	mutate()
+	mutate()
+	out.Line("wpol", encPols(pols))
+	first := func() {
+		nk := "empty"
+		if r.Chance(1, 3) {
+			nk = "stale"
+		}
+		switch r.Intn(8) {
+		case 0, 1, 2:
+			out.Line("wareq", "-", "-", "held", nk) // the legacy wildcard
+		case 3:
+			// an explicit subscription next to the wildcard
+			out.Line("wareq", wire.EncList(append([]string{"*"}, wire.Subset(r, wauthNames, 1, 2)...)), "-", "held", nk)
+		default:
+			out.Line("wareq", "*", "-", "held", nk)
+		}
+	}
+	first()
+	length := 2 + r.Intn(12)
+	for i := 0; i < length; i++ {
+		switch r.Intn(10) {
+		case 0, 1, 2, 3:
+			ch := mutate()
+			out.Line("wpol", encPols(pols))
+			if r.Chance(9, 10) {
+				out.Line("wapush", wire.EncList(ch), "0")
+			}
+		case 4:
+			out.Line("wapush", "-", "1") // a full push
+		case 5, 6:
+			// the stream breaks; policies change (are deleted) while the client is away; it reconnects
+			// presenting what it retained
+			out.Line("wreconnect")
+			if r.Chance(2, 3) {
+				mutate()
+				out.Line("wpol", encPols(pols))
+			}
+			first()
+		case 7:
+			out.Line("wapush", wire.EncList(wire.Subset(r, wauthNames, 1, 2)), wire.B(r.Chance(1, 4)))
+		case 8:
+			if r.Chance(1, 2) {
+				ch := mutate()
+				out.Line("wpol", encPols(pols))
+				out.Line("wfail", "1")
+				out.Line("wapush", wire.EncList(ch), "0")
+				out.Line("wfail", "0")
+				out.Line("wreconnect")
+				first()
+			} else {
+				// a subscription change on the wildcard type: answered from the newly subscribed names only
+				out.Line("wareq", wire.EncList(wire.Subset(r, wauthNames, 1, 2)), wire.EncList(wire.Subset(r, wauthNames, 1, 4)), "-", "empty")
+			}
+		default:
+			out.Line("wareq", "-", "-", "-", "cur") // ACK
+		}
+	}
+}
+
+// oracleWds: the property on the real generators.
+//
+//	wds-client-stale          Address / Workload: a wildcard client that was told about every change (each
+//	                          index change is followed by a push naming it) holds exactly the index; an
+//	                          on-demand client holds, for every resource name it is subscribed to (by name, or
+//	                          by an address that resolved when it asked), the current version iff it exists -
+//	                          also after the resource was removed and re-created, and after a reconnect
+//	                          presenting versions. The Workload type never carries a Service.
+//	wauth-client-stale        Authorization: after the answer to a first request (whatever it retained, also
+//	                          policies deleted while it was away), after a forced push, and after pushes that
+//	                          named every changed policy, the client holds exactly the policies.
+//	wds-removed-still-needed  "nothing it still needs is removed": a name in removed_resources is not the
+//	                          name of something that exists, nor an address of a resource the same response
+//	                          delivers.
 func oracleWds(in string) []string {
 	var verdicts []string
 	verdict, open, idx := "", false, 0
@@ -347,41 +578,100 @@ func oracleWds(in string) []string {
 		}
 	}
 	w := newWds()
-	wild := false
+	wild, failing := false, false
+	typ := "WDS"
 	subscribed := sets.New[string]()
-	dirty := sets.New[string]() // names changed in the index and not yet announced by a push
-	var prevIdx map[string]int
+	dirty := sets.New[string]() // names changed and not yet announced by a push that reached the client
+	excluded := sets.New[string]()
+	suspended := false
+	rawSubs := sets.New[string]() // the names the client asked for on this stream, as it wrote them
+	prevIdx, prevPol := map[string]int{}, map[string]int{}
 	fresh := true // no request yet on the current stream
+	diffInto := func(prev, cur map[string]int) {
+		for n, v := range cur {
+			if pv, ok := prev[n]; !ok || pv != v {
+				dirty.Insert(n)
+			}
+		}
+		for n := range prev {
+			if _, ok := cur[n]; !ok {
+				dirty.Insert(n)
+			}
+		}
+	}
 	for _, f := range wire.ReadLines(in) {
 		if f[0] == "case" {
 			flush()
 			verdict, open, idx = "", true, 0
-			wild, subscribed, dirty, prevIdx = false, sets.New[string](), sets.New[string](), map[string]int{}
+			wild, failing, typ, subscribed, dirty = false, false, "WDS", sets.New[string](), sets.New[string]()
+			excluded, suspended = sets.New[string](), false
+			prevIdx, prevPol = map[string]int{}, map[string]int{}
 			fresh = true
 		}
 		idx++
 		if w.apply(f) == "crash" && verdict == "" {
 			verdict = fmt.Sprintf("FAIL never-crashes op=%d", idx-1)
 		}
-		cur := map[string]int{}
-		for _, x := range w.idx.wls {
-			cur[x.name] = x.ver
+		switch f[0] {
+		case "wlreq":
+			typ = "WL"
+		case "wareq", "wapush", "wpol":
+			typ = "WAUTH"
 		}
+		// what exists, as the client of this type may hold it
+		cur, byName := map[string]int{}, map[string]wl{}
+		if typ == "WAUTH" {
+			for _, p := range w.idx.pols {
+				cur[p.name] = p.ver
+			}
+		} else {
+			for _, x := range w.idx.wls {
+				byName[x.name] = x
+				if typ == "WL" && x.svc {
+					continue
+				}
+				cur[x.name] = x.ver
+			}
+		}
+		// every response of this op: nothing still needed is removed
+		for _, resp := range w.last {
+			for _, n := range resp.RemovedResources {
+				if verdict != "" {
+					break
+				}
+				if typ == "WAUTH" {
+					if _, ok := cur[n]; ok {
+						verdict = fmt.Sprintf("FAIL wds-removed-still-needed op=%d type=%s removed=%s exists", idx-1, typ, n)
+					}
+					continue
+				}
+				if _, ok := byName[n]; ok {
+					verdict = fmt.Sprintf("FAIL wds-removed-still-needed op=%d type=%s removed=%s exists", idx-1, typ, n)
+				}
+				for _, rr := range resp.Resources {
+					if x, ok := byName[rr.Name]; ok && x.alias == n {
+						verdict = fmt.Sprintf("FAIL wds-removed-still-needed op=%d type=%s removed=%s is-an-address-of=%s (delivered in the same response)", idx-1, typ, n, rr.Name)
+					}
+				}
+			}
+		}
+		w.last = nil
 		switch f[0] {
 		case "widx":
-			for n, v := range cur {
-				if pv, ok := prevIdx[n]; !ok || pv != v {
-					dirty.Insert(n)
-				}
-			}
-			for n := range prevIdx {
-				if _, ok := cur[n]; !ok {
-					dirty.Insert(n)
-				}
-			}
+			diffInto(prevIdx, cur)
 			prevIdx = cur
 			continue
-		case "wreq":
+		case "wpol":
+			diffInto(prevPol, cur)
+			prevPol = cur
+			continue
+		case "wfail":
+			failing = f[1] == "1"
+			continue
+		case "wreq", "wlreq", "wareq":
+			if failing {
+				break
+			}
 			sub, unsub := wire.DecList(f[1]), wire.DecList(f[2])
 			// the first request of a stream, whatever its shape ("*", the legacy empty subscription, with or
 			// without a retained nonce)
@@ -389,53 +679,95 @@ func oracleWds(in string) []string {
 			fresh = false
 			if isFirst {
 				wild = (len(sub) == 0 || sets.New(sub...).Contains("*")) && !sets.New(unsub...).Contains("*")
-				subscribed = sets.New[string]()
-				dirty = sets.New[string]() // a first request is answered from the whole index
+				subscribed, rawSubs = sets.New[string](), sets.New[string]()
+				dirty = sets.New[string]() // a first request is answered from everything that exists
+			}
+			if typ == "WAUTH" {
+				// a client that unsubscribes a name explicitly while its wildcard stays (no ztunnel does) makes
+				// the server forget that it holds it: outside the clause from then on
+				if !isFirst {
+					if len(sub)+len(unsub) > 0 {
+						// a subscription change next to the wildcard: the answer is generated for the newly subscribed
+						// names only and the record is reset to (those - removed + generated): what the client holds of
+						// policies whose deletion was not pushed yet is forgotten (observation O-C03-4; no ztunnel
+						// changes its Authorization subscription). Not judged until the next first request.
+						suspended = true
+					}
+				} else {
+					suspended = false
+				}
+				break
 			}
 			for _, s := range sub {
-				if s == "*" {
-					continue
+				if s == "*" || sets.New(unsub...).Contains(s) {
+					continue // subscribed and unsubscribed in one request: not subscribed
 				}
-				for _, x := range wdsNames {
+				if rawSubs.InsertContains(s) && strings.HasPrefix(s, "net/") {
+					continue // an address it is subscribed to already: a no-op, not a new question (O-C03-2)
+				}
+				for _, x := range w.idx.wls {
 					// by resource name, or by address when the address resolves at that moment (a
 					// subscription by address to a workload that does not exist yet is only recorded
 					// under the address, and pushes are keyed by resource name: observation O-C03-2,
 					// outside this clause)
-					_, exists := cur[x]
-					if s == x || (s == wdsAlias[x] && exists) {
-						subscribed.Insert(x)
+					if s == x.alias && !x.noIdx {
+						subscribed.Insert(x.name)
 					}
+				}
+				if _, isAlias := aliasOwner(s); !isAlias {
+					subscribed.Insert(s)
 				}
 			}
 			for _, s := range unsub {
 				subscribed.Delete(s)
+				rawSubs.Delete(s)
 			}
 		case "wpush":
-			for _, n := range wire.DecList(f[1]) {
-				dirty.Delete(n)
+			if !failing {
+				for _, n := range wire.DecList(f[1]) {
+					dirty.Delete(n)
+				}
+			}
+		case "wapush":
+			if !failing {
+				if f[2] == "1" {
+					dirty = sets.New[string]()
+				}
+				for _, n := range wire.DecList(f[1]) {
+					dirty.Delete(n)
+				}
 			}
 		case "wreconnect":
 			fresh = true
 			continue
 		}
-		if verdict != "" {
+		if verdict != "" || fresh || suspended {
 			continue
 		}
+		clause := "wds-client-stale"
+		if typ == "WAUTH" {
+			clause = "wauth-client-stale"
+		}
 		check := func(n string) {
-			if dirty.Contains(n) {
+			if dirty.Contains(n) || excluded.Contains(n) {
 				return
 			}
-			hv, hok := w.held[n]
+			hv, hok := w.held[typ][n]
 			cv, cok := cur[n]
 			if hok != cok || (cok && hv != cv) {
-				verdict = fmt.Sprintf("FAIL wds-client-stale op=%d name=%s index=%v/%d held=%v/%d wildcard=%v", idx-1, n, cok, cv, hok, hv, wild)
+				verdict = fmt.Sprintf("FAIL %s op=%d type=%s name=%s exists=%v/%d held=%v/%d wildcard=%v", clause, idx-1, typ, n, cok, cv, hok, hv, wild)
 			}
 		}
-		if wild {
-			for _, n := range wdsNames {
+		switch {
+		case typ == "WAUTH":
+			for _, n := range wauthNames {
 				check(n)
 			}
-		} else {
+		case wild:
+			for _, n := range append(append([]string(nil), wdsNames...), wdsSvc) {
+				check(n)
+			}
+		default:
 			for n := range subscribed {
 				check(n)
 			}
@@ -443,4 +775,9 @@ func oracleWds(in string) []string {
 	}
 	flush()
 	return verdicts
+}
+
+// aliasOwner: is s one of the addresses of the universe (not a resource name)?
+func aliasOwner(s string) (string, bool) {
+	return "", strings.HasPrefix(s, "net/")
 }
